@@ -5,6 +5,9 @@
 import Rbgp.Rib.EntryInsert
 import Rbgp.Rib.EntryPurge
 import Rbgp.Rib.EntryMisc
+import Rbgp.Rib.ExactInsert
+import Rbgp.Rib.ExactPurge
+import Rbgp.Rib.ExactMisc
 import Rbgp.Rib.Run
 namespace Rbgp.Rib
 
@@ -37,5 +40,19 @@ theorem allSound : AllSound where
     | nhValidity => exact entrySound_misc c g p t _ t' r trivial hop hinv hstep
     | startDeferral => exact entrySound_misc c g p t _ t' r trivial hop hinv hstep
     | endDeferral => exact entrySound_misc c g p t _ t' r trivial hop hinv hstep
+  exact := by
+    intro c g p t op t' r _ hop hinv hstep
+    cases op with
+    | insert => exact exactSound_insert_remove c g p t _ t' r trivial hop hinv hstep
+    | remove => exact exactSound_insert_remove c g p t _ t' r trivial hop hinv hstep
+    | drop => exact exactSound_purge c g p t _ t' r trivial hop hinv hstep
+    | dropStale => exact exactSound_purge c g p t _ t' r trivial hop hinv hstep
+    | dropLlgr => exact exactSound_purge c g p t _ t' r trivial hop hinv hstep
+    | dropNoLlgr => exact exactSound_purge c g p t _ t' r trivial hop hinv hstep
+    | restale => exact exactSound_misc c g p t _ t' r trivial hop hinv hstep
+    | restaleLlgr => exact exactSound_misc c g p t _ t' r trivial hop hinv hstep
+    | nhValidity => exact exactSound_misc c g p t _ t' r trivial hop hinv hstep
+    | startDeferral => exact exactSound_misc c g p t _ t' r trivial hop hinv hstep
+    | endDeferral => exact exactSound_misc c g p t _ t' r trivial hop hinv hstep
 
 end Rbgp.Rib
